@@ -206,18 +206,13 @@ func (h *Hist) Apply(op string) string {
 	}
 	// C06: every independent import of the block succeeds unchanged
 	for i := 0; i < h.Hooks.Imports; i++ {
-		b := pre
-		if i > 0 {
-			b = pre.Fork()
-		}
+		b := pre.Fork() // never pre itself: the other oracles compare against the pre-block state
 		var ierr error
 		m, w := mc.CatchStack(func() { ierr = b.Import(built.Block) })
 		if m == "" && ierr == nil && b.Head().Hash() != built.Block.Hash() {
 			ierr = fmt.Errorf("imported block did not become head")
 		}
-		if i > 0 {
-			b.Close()
-		}
+		b.Close()
 		h.R.Count("imports_of_built_blocks", 1)
 		if m != "" {
 			h.fail(fmt.Sprintf("import path panics at %s: %s", w, normErr(m)), m)
@@ -240,7 +235,14 @@ func (h *Hist) Apply(op string) string {
 				dir = "destroyed"
 			}
 			detail := fmt.Sprintf("expected %v now %v diff %v\n%s", h.Genesis, s.Total, diff, s)
-			if who := forcedSettleLoss(pre, built, diff); who != "" {
+			if refundMint(h, built, diff) {
+				// second attributed defect: gas used (and with it header.GasRewards, which the block rewards pay
+				// out) is reported BEFORE the SSTORE refund is applied, so refund x price is paid twice.
+				h.fail("tokens created by a refund-earning transaction: header.GasRewards is computed from the gas used before the refund, the sender gets the refund back as well",
+					detail)
+				h.Genesis = s.Total
+				h.R.Count("refund_mints_attributed", 1)
+			} else if who := forcedSettleLoss(pre, built, diff); who != "" {
 				// attributed to one specific defect: report it under its own signature and
 				// rebase, so that any OTHER supply change on this path is still seen.
 				h.fail("tokens destroyed at a forced-settle period end: the rewards just distributed to an online validator are overwritten by settling its stale record",
@@ -298,6 +300,21 @@ func forcedSettleLoss(pre *Node, b *Built, diff *big.Int) string {
 		return ""
 	}
 	return strings.Join(who, ",")
+}
+
+// refundMint recognises the known gas-accounting defect: the block holds a successful call of the clearing contract
+// (the only refund-earning tx of the menu) and the supply grew by at most the capped refund (gasUsed/2) x price.
+func refundMint(h *Hist, b *Built, diff *big.Int) bool {
+	if diff.Sign() <= 0 {
+		return false
+	}
+	bound := new(big.Int)
+	for i, tx := range b.Included {
+		if h.Txs[tx.Hash()].Op == "clear" && b.Receipts[i].Status == 1 {
+			bound.Add(bound, new(big.Int).Mul(new(big.Int).SetUint64(b.Receipts[i].GasUsed/2), tx.GasPrice()))
+		}
+	}
+	return bound.Sign() > 0 && diff.Cmp(bound) <= 0
 }
 
 func statuses(b *Built) string {
